@@ -35,7 +35,7 @@ func (c16) Cases(tier string) int {
 	if tier == "thorough" {
 		return 120000
 	}
-	return 8000
+	return 16000
 }
 func (c16) RaceCases(tier string) int {
 	if tier == "thorough" {
